@@ -373,14 +373,21 @@ def check_pair_schedule(ctx, fi):
 
 
 def check_datavector(ctx, fi):
+    from ..normalise import Defs, expand
+    defs = Defs(fi.body)
     rets = [r for r in walk_shallow(fi.node) if isinstance(r, ast.Return)]
     for r in rets:
-        ok = any(isinstance(c.func, ast.Attribute) and c.func.attr == 'expand' and len(c.args) == 1 and U(c.args[0]) == 'self.domain'
-                 for c in calls_in(r))
+        full = expand(r.value, defs, comps=False)
+        # the joint over the maximal cliques spans every attribute of the domain (the junction tree's graph has every attribute as a
+        # node), so either the broadcast to the domain or a permutation of the axes by name into the domain's order lays it out
+        ok = any(isinstance(c.func, ast.Attribute) and len(c.args) == 1 and
+                 ((c.func.attr == 'expand' and U(c.args[0]) == 'self.domain') or
+                  (c.func.attr == 'transpose' and U(c.args[0]).replace(' ', '') in ('self.domain.attrs', 'list(self.domain.attrs)', 'tuple(self.domain.attrs)')))
+                 for c in calls_in(full))
         ctx.ob('requested-order', fi, r, ok,
                'the full vector must be laid out in domain order: the summed potential (clique-merge order) goes through '
-               '.expand(self.domain) before it is flattened')
-        ok = 'self.total' in U(r)
+               '.expand(self.domain) (or .transpose(self.domain.attrs)) before it is flattened - reshaping the array keeps the clique-merge order')
+        ok = 'self.total' in U(full)
         ctx.ob('requested-order', fi, r, ok, 'the normalised vector is scaled to self.total', construct='scaling of ' + U(r)[:50])
     s = [x for x in walk_shallow(fi.node) if isinstance(x, ast.Assign) and isinstance(x.value, ast.Call) and U(x.value.func) == 'sum']
     from ..srcmodel import alpha_text, alpha_of
